@@ -18,6 +18,7 @@ func init() {
 			"(canon.only) every byte string that reaches GetHash/ComputeMultihash anywhere in subject code is the result of canonicalizer.MarshalCanonical, a digest produced by those functions, the Digest of a decoded multihash, or a parameter whose every caller satisfies the same rule — json.Marshal / docutil output never reaches a hash; " +
 			"(alg.from.hash) IsValidModelMultihash succeeds only under CalculateModelMultihash(model, code(supplied)) = supplied; (commit.terms) GetCommitment(k, c) = enc(ComputeMultihash(c, GetHash(hashOf(c), JCS(k)))), GetRevealValue(k, c) = CalculateModelMultihash(k, c) and GetCommitmentFromRevealValue(rv) = enc(ComputeMultihash(mh.Code, mh.Digest)) for mh = GetMultihash(rv) — which coincide given Decode∘Encode = id; " +
 			"(suffix) GetUniqueSuffix = CalculateModelMultihash(suffixData, algs[0]); parseInitialState succeeds only under enc(JCS(decoded)) = segment (string equality on the encoded form); the create parser binds UniqueSuffix to GetUniqueSuffix(suffixData, protocol algorithms) and in non-batch mode requires IsValidModelMultihash(delta, suffixData.DeltaHash); resolveRequestWithInitialState succeeds only under didSuffix = parsed.UniqueSuffix with the suffix and initial state that ResolveDocument extracted from the same DID string. " +
+			"(sortkey) the JCS member ordering obligations of C07 (UTF-16 code-unit comparator evaluated over all orderings, key provenance, insertion rule) because the canonical form must not depend on member order; (suffix.initial.members) every member of the type the long-form initial state is decoded into, other than suffixData and delta, is established empty on success (one obligation per member; the type member is a recorded known finding); " +
 			"Not decided: collision resistance; that JCS is value-canonical (C07); Decode∘Encode = id in go-multihash/base64.",
 		Run: runC08,
 	})
